@@ -283,6 +283,23 @@ CLAIMED["C11"] = {
     "design": "DESIGN.md section 4 C11",
 }
 
+CLAIMED["C15"] = {
+    "text": "PARTIAL. Rocq theorems about a Gallina model of Program.to_string (Model/Serial.v: the whole serialiser - value dispatch, "
+            "quoting, lists, metadata dictionaries, command layout) composed with the lexer / parser model of C10: for EVERY string "
+            "(quotes, backslashes, delimiters, tabs, line breaks, any code point) the quoted text is taken by the master regex as "
+            "one STRING token whatever follows, and decodes to the string (C15_quoted_string_is_one_token, C15_string_roundtrip); for "
+            "EVERY integer of any magnitude and sign the digits are one INT token when no digit or dot follows and are read back as "
+            "that integer (C15_integer_is_one_token, C15_integer_roundtrip). NOT proved: the round trip of a whole program through "
+            "the LALR automaton (parser completeness, see C10) and anything about float texts (repr/float are oracles). The whole "
+            "composition is covered by differential runs: ser_program vs to_string character for character, the parser model vs the "
+            "real parser on that text, and the oracle P vs from_source(P.to_string()): command order, classes, argument names, "
+            "cleaned values bit for bit, results of the runnable part; programs built from source and through add_command.",
+    "note": PARSER_NOTE + " repr(float), str(float), float(text) are oracles. The abstract program handed to ser_program is read off the "
+            "live Program object by Python type in drivers/c15_driver.py.",
+    "technique": "Rocq proof (string and integer round trip through serialiser, lexer and decoder, for all values) + differential correspondence for the whole program",
+    "design": "DESIGN.md section 4 C15",
+}
+
 NOT_YET = "check not built yet (planned with the same technique, see DESIGN.md section 4); not claimed in this commit"
 
 
